@@ -12,6 +12,16 @@ CLAIMED = {
         technique=TECH + "; lemmas over functional contracts; exhaustive lattice stand-in (bounded, not counted)",
     ),
 }
+CLAIMED["C14"] = dict(
+    level="proof",
+    text="segment_clip's real body (generator with a for/break/yield loop, summarised by its first-exit index, no "
+         "hand-written invariant) is proved against the lattice specification taken from the statement: soundness of "
+         "every yielded window, completeness (window len(result) is inadmissible), same recording, deterministic ids; "
+         "lemmas: full length unless truncated, coverage when hop <= duration, ids distinct; guards two-sided.",
+    note="Trusted: engine, z3/cvc5, floats as reals (mode R), pydantic construction contract (Clip validator inlined "
+         "from its real body), uuid5 and float formatting injective, math.ceil/floor. Stand-in segment_lattice is bounded.",
+    technique=TECH + "; first-exit loop summarisation; lemmas over the contract",
+)
 ALL = [f"C{n:02d}" for n in range(1, 21)]
 NOT_APPLICABLE = {p: "check not built yet in this session (work in progress; see DESIGN.md section 12 build order)"
                   for p in ALL if p not in CLAIMED}
